@@ -385,6 +385,65 @@ def c07_family(V, cfg, mk_uni, start_scanned, tag):
     return meta, replayed
 
 
+def c07_unsaved_imports(V):
+    """Close WITHOUT saving after an edit that touched only a conftest's import lines (seed C01_10): for such an edit
+    the document's fixtures and usages are the same in buffer and on disk, so every go-to-definition answer after the
+    close must equal the answer of a twin that never opened the document (Index.tla CloseFn: the closed file's text is
+    the disk text again; nothing else of the index distinguishes the two servers).  Hand-written universe (c, h, t of
+    mk_universe; an outer conftest R/conftest.py with a same-named fixture makes 'walks past c' visible)."""
+    root = os.path.join(C.BUILD, "ws", "c07unsaved-%d" % os.getpid())
+    shutil.rmtree(root, ignore_errors=True)
+    fx = "import pytest\n\n\n@pytest.fixture\ndef n():\n    return 1\n"
+    c_disks = {"star": "import pytest\nfrom .helperh import *\n",
+               "byname": "import pytest\nfrom .helperh import n\n",
+               "byname_paren": "import pytest\nfrom .helperh import (\n    n,\n)\n",
+               "plugins": "import pytest\npytest_plugins = [\"a.helperh\"]\n"}
+    buffers = {"removed": "import pytest\n", "commented": "import pytest\n# from .helperh import *\n", "empty": "",
+               "other": "import pytest\nimport os\n"}
+    t_text = "def test_1(n):\n    assert n\n"
+    files = {"o": root + "/R/conftest.py", "c": root + "/R/a/conftest.py", "h": root + "/R/a/helperh.py",
+             "t": root + "/R/a/b/test_t.py", "i": root + "/R/a/__init__.py"}
+    cases, ctx = [], {}
+    k = 0
+    for dk, ctext in sorted(c_disks.items()):
+        for outer in (False, True):
+            d = os.path.join(root, "%s%d" % (dk, outer))
+            P = {s: f.replace(root, d) for s, f in files.items()}
+            texts = {"c": ctext, "h": fx, "t": t_text, "i": ""}
+            if outer:
+                texts["o"] = fx
+            for s, tx in texts.items():
+                os.makedirs(os.path.dirname(P[s]), exist_ok=True)
+                with open(P[s], "w") as fh:
+                    fh.write(tx)
+            first = [{"op": "set_root", "path": d + "/R"}] + \
+                [{"op": "analyze", "path": P[s], "text": texts[s], "fresh": True} for s in sorted(texts) if s != "i"]
+            q = {"op": "goto", "path": P["t"], "line": 0, "col": 11}
+            for bk, btext in sorted(buffers.items()):
+                for requery in (False, True):
+                    ops = list(first)
+                    if requery:
+                        ops.append(q)
+                    ops += [{"op": "analyze", "path": P["c"], "text": btext}, {"op": "close", "path": P["c"]}, q]
+                    n_main = len(ops)
+                    ops += [{"op": "newdb"}] + first + [q]
+                    ctx[k] = (n_main, {"conftest_on_disk": ctext, "unsaved_buffer": btext, "outer_conftest": outer,
+                                       "queried_before": requery, "dir": d})
+                    cases.append({"id": k, "ops": ops})
+                    k += 1
+    for res in C.run_harness(iter(cases)):
+        n_main, ex = ctx[res["id"]]
+        V.count()
+        V.nontriv("unsaved" + json.dumps(ex))
+        warm, never = res["res"][n_main - 1], res["res"][-1]
+        key = lambda a: a if not isinstance(a, dict) or "file" not in a else (a["file"], a["line"])
+        if key(warm) != key(never):
+            V.violation(dict(ex, after_close=warm, never_opened=never),
+                        "after an import-only edit was closed without saving, go-to-definition differs from a server that never opened the document")
+    shutil.rmtree(root, ignore_errors=True)
+    return k
+
+
 def check_c07(tier):
     V = C.Verdict("C07", tier, "model_checking")
     C.build_harness()
@@ -398,6 +457,7 @@ def check_c07(tier):
         m, n = c07_family(V, cfg, mk, scanned, tag)
         metas.append(m)
         replayed += n
+    replayed += c07_unsaved_imports(V)
     if not V.samples:
         V.sample({"note": "see rule"})
     replayed += real_eviction(V, 2 if tier == "quick" else 12)
@@ -423,7 +483,8 @@ def check_c07(tier):
              "only the edits.  Three configurations: the conftest/helper/test universe (incl. mutually importing modules and "
              "same-named fixtures with / without a dependency cycle); the same universe starting UNSCANNED with the workspace scan "
              "(the real scan_workspace over the on-disk tree) as one event of the history; a conftest CHAIN whose two conftests "
-             "share a re-exporting module.  non-trivial = an earlier query/close/evict precedes the final query",
+             "share a re-exporting module.  Plus 64 hand-built histories that close a conftest WITHOUT saving after an edit of "
+             "its import lines only, judged against a twin that never opened it.  non-trivial = an earlier query/close/evict precedes the final query",
         assumptions=["eviction is emulated for a chosen victim through the pub maps exactly as mod.rs:336-343; the pressure-driven trigger (> 2000 cached files) is provoked for real in a separate step",
                      "close/evict only of documents whose buffer equals the disk content (the statement's 'unmodified document')"])
 
